@@ -101,6 +101,21 @@ Definition cA2 (m : mst) (e : ev) : bool :=
       end
   | _ => true
   end.
+Definition cA3 (cfg : config) (ob : opobs) (m : mst) (e : ev) : bool :=
+  match e with
+  | EPend r =>
+      match nth_error (m_reqs m) r with
+      | Some y =>
+          if g_pool cfg && is_live y && match ri_dial y with DsFlying => true | _ => false end then
+            forallb (fun c => match nth_error (m_conns m) c with
+                              | Some x => ci_share x || negb (open_conn m c && usable cfg m c)
+                              | None => true end)
+                    (idle_of (o_snap ob) (key_tok m (ri_key y)))
+          else true
+      | None => false
+      end
+  | _ => true
+  end.
 Definition cB (cfg : config) (ob : opobs) (m : mst) (e : ev) : bool :=
   match e with
   | ENew c sh r =>
@@ -118,9 +133,10 @@ Definition cB (cfg : config) (ob : opobs) (m : mst) (e : ev) : bool :=
   | _ => true
   end.
 
-Lemma chk_ev_C14_split cfg o ob m e : chk_ev_C14 cfg o ob m e = cA1 cfg ob m e && cA2 m e && cB cfg ob m e.
+Lemma chk_ev_C14_split cfg o ob m e : chk_ev_C14 cfg o ob m e = cA1 cfg ob m e && cA2 m e && cB cfg ob m e && cA3 cfg ob m e.
 Proof.
-  destruct e as [r k|c sh r|r c a b d h|r|r x|r c|c|c okb]; cbn [chk_ev_C14 cA1 cA2 cB]; try reflexivity.
+  destruct e as [r k|c sh r|r c a b d h|r|r x|r c|c|c okb]; cbn [chk_ev_C14 cA1 cA2 cB cA3]; try reflexivity.
+  - rewrite andb_true_r. reflexivity.
   - destruct (match nth_error (m_conns m) c with Some _ => _ | None => _ end); reflexivity.
   - destruct okb; [|reflexivity]. rewrite !andb_true_r. reflexivity.
 Qed.
@@ -128,11 +144,12 @@ Qed.
 Definition chk_A1 (cfg : config) (m : mst) (o : op) (ob : opobs) : bool := evs_ok (cA1 cfg ob) (track_op cfg m o ob) (o_events ob).
 Definition chk_A2 (cfg : config) (m : mst) (o : op) (ob : opobs) : bool := evs_ok cA2 (track_op cfg m o ob) (o_events ob).
 Definition chk_B (cfg : config) (m : mst) (o : op) (ob : opobs) : bool := evs_ok (cB cfg ob) (track_op cfg m o ob) (o_events ob).
+Definition chk_A3 (cfg : config) (m : mst) (o : op) (ob : opobs) : bool := evs_ok (cA3 cfg ob) (track_op cfg m o ob) (o_events ob).
 
 Lemma chk_C14_split cfg m o ob :
-  chk_C14 cfg m o ob = chk_A1 cfg m o ob && chk_A2 cfg m o ob && chk_B cfg m o ob && chk_bg_C14 cfg m o ob.
+  chk_C14 cfg m o ob = chk_A1 cfg m o ob && chk_A2 cfg m o ob && chk_B cfg m o ob && chk_A3 cfg m o ob && chk_bg_C14 cfg m o ob.
 Proof.
-  unfold chk_C14, chk_A1, chk_A2, chk_B.
+  unfold chk_C14, chk_A1, chk_A2, chk_B, chk_A3.
   rewrite (evs_ok_ext _ _ (chk_ev_C14_split cfg o ob)), !evs_ok_and. reflexivity.
 Qed.
 
@@ -148,11 +165,11 @@ Proof. intros H. induction ops as [|o ops IH]; intros [|ob obs] m; cbn [mon_step
 
 Theorem mon_C14_split cfg ops obs :
   mon_C14 cfg ops obs = mon_with chk_A1 cfg ops obs && mon_with chk_A2 cfg ops obs && mon_with chk_B cfg ops obs
-                        && mon_with chk_bg_C14 cfg ops obs.
+                        && mon_with chk_A3 cfg ops obs && mon_with chk_bg_C14 cfg ops obs.
 Proof.
   unfold mon_C14, mon_with.
   rewrite (mon_steps_ext chk_C14
-             (fun c m o ob => chk_A1 c m o ob && chk_A2 c m o ob && chk_B c m o ob && chk_bg_C14 c m o ob) cfg (chk_C14_split cfg)).
+             (fun c m o ob => chk_A1 c m o ob && chk_A2 c m o ob && chk_B c m o ob && chk_A3 c m o ob && chk_bg_C14 c m o ob) cfg (chk_C14_split cfg)).
   rewrite !mon_steps_and. reflexivity.
 Qed.
 
